@@ -1,5 +1,6 @@
 use crate::command::types::{Command, CompareOp, Expr, OrderSpec};
 use crate::engine::core::InflightSegments;
+use crate::engine::core::PublishedUids;
 use crate::engine::core::filter::filter_group::FilterGroup;
 use crate::engine::core::filter::filter_group_builder::FilterGroupBuilder;
 use crate::engine::core::read::aggregate::plan::AggregatePlan;
@@ -29,6 +30,8 @@ pub struct QueryPlan {
     pub segment_ids: Arc<std::sync::RwLock<Vec<String>>>,
     pub aggregate_plan: Option<AggregatePlan>,
     pub index_registry: IndexRegistry,
+    /// Which uids the segment index lists for the shard's published segments
+    published_uids: Arc<PublishedUids>,
     event_scope: EventScope,
     inflight_segments: Option<InflightSegments>,
 }
@@ -117,16 +120,13 @@ impl QueryPlan {
                     segment_ids: Arc::clone(segment_ids),
                     aggregate_plan,
                     index_registry: IndexRegistry::new(),
+                    published_uids: PublishedUids::for_shard(segment_base_dir),
                     event_scope,
                     inflight_segments,
                 };
                 // Preload catalogs for discovered segments (best-effort)
                 if let Some(uid) = plan.event_type_uid().await {
-                    let segs = plan
-                        .segment_ids
-                        .read()
-                        .unwrap_or_else(|p| p.into_inner())
-                        .clone();
+                    let segs = plan.live_segments_serving(Some(&uid));
                     let _ = GlobalIndexCatalogCache::instance();
                     plan.index_registry
                         .load_for_segments(&plan.segment_base_dir, &segs, &uid);
@@ -305,6 +305,7 @@ impl QueryPlan {
             segment_ids: Arc::new(std::sync::RwLock::new(Vec::new())),
             aggregate_plan,
             index_registry: IndexRegistry::new(),
+            published_uids: Arc::default(),
             event_scope,
             inflight_segments: None,
         }
@@ -329,8 +330,32 @@ impl QueryPlan {
             .unwrap_or(false)
     }
 
+    /// Snapshot of the shard's live segment list without the segments that no longer serve
+    /// `uid`: compaction may have moved that uid out of a segment that stays published for
+    /// its other uids, and the moved uid's files are still in the segment directory. With
+    /// `None` (the plan spans several event types) the whole list is returned and
+    /// `segment_maybe_contains_uid` decides per uid.
+    ///
+    /// The list and the uid lists are read under the list's lock, which the compaction
+    /// hand-over holds while it changes both.
+    pub fn live_segments_serving(&self, uid: Option<&str>) -> Vec<String> {
+        let live = self.segment_ids.read().unwrap_or_else(|p| p.into_inner());
+        match uid {
+            Some(uid) => live
+                .iter()
+                .filter(|segment_id| self.published_uids.serves(segment_id, uid))
+                .cloned()
+                .collect(),
+            None => live.clone(),
+        }
+    }
+
     /// Returns true if the given segment is expected to contain data for the provided uid.
     pub fn segment_maybe_contains_uid(&self, segment_id: &str, uid: &str) -> bool {
+        if !self.published_uids.serves(segment_id, uid) {
+            return false;
+        }
+
         if self.index_registry.has_catalog(segment_id) {
             return true;
         }
